@@ -142,6 +142,11 @@ func templateFor(unit string) (string, string) {
 	return string(b), p
 }
 
+func hasTemplate(unit string) bool {
+	t, _ := templateFor(unit)
+	return t != ""
+}
+
 // replayOnRealCode returns (confirmed, output, test source).
 func replayOnRealCode(p *Prog, id string, o *OblResult) (bool, string, string) {
 	tmpl, path := templateFor(o.Unit)
